@@ -7,9 +7,9 @@
 (*                      then the forward hook adds one;                                *)
 (*   Reset(v)           system.reset(v) (reset() is Reset(0));                         *)
 (*   SetSystime(v)      system.systime = v;                                            *)
-(*   SetRefpoint(x,u,v) LTI: no effect.  LTV: the time becomes v (explicit v only;      *)
-(*                      LTV.set_refpoint() without t raises today and is not part of   *)
-(*                      the alphabet).  NLS: the reference triple becomes the given     *)
+(*   SetRefpoint(x,u,v) LTI: no effect.  LTV: the time becomes v (unchanged without v;   *)
+(*                      "the most recent timestamp is taken", as documented).  NLS:     *)
+(*                      the reference triple becomes the given                          *)
 (*                      arguments, a missing one is the most recent state / input /     *)
 (*                      system time; the time is unchanged.                            *)
 (* LTI/LTV data are integer matrices (LTV: one per time index); an NLS is a polynomial  *)
@@ -198,7 +198,7 @@ RefOf(pr, s, c, alias) ==
 \* the call is one whose behaviour is documented (others raise today or are unspecified: not generated)
 Judged(cl, S, s, c) ==
   CASE c.op = "Forward" -> IF cl = "NLS" THEN TRUE ELSE s.t \in 0..(Horizon(cl, S) - 1)
-    [] c.op = "SetRefpoint" /\ cl = "LTV" -> IsSome(c.v)
+    [] c.op = "SetRefpoint" /\ cl = "LTV" -> TRUE          \* without t: "the most recent timestamp is taken" (documented)
     [] c.op = "SetRefpoint" /\ cl = "NLS" -> (IsSome(c.x) /\ IsSome(c.u)) \/ IsSome(s.last)
     [] OTHER -> TRUE
 
@@ -215,7 +215,7 @@ StepSysA(cl, S, s, c, alias) ==
          [s |-> [s EXCEPT !.t = c.v[1]], out |-> None]
     [] c.op = "SetRefpoint" ->
          [s |-> CASE cl = "LTI" -> s
-                  [] cl = "LTV" -> [s EXCEPT !.t = c.v[1]]
+                  [] cl = "LTV" -> [s EXCEPT !.t = IF IsSome(c.v) THEN c.v[1] ELSE s.t]
                   [] cl = "NLS" -> [s EXCEPT !.ref = Some(RefOf(S, s, c, alias))],
           out |-> None]
     [] OTHER -> [s |-> s, out |-> None]       \* "ReadLin": reading A, B, C, D, c1, c2 changes nothing
@@ -241,7 +241,7 @@ Calls(cl, S, s) ==
   IN  {Call("Forward", Some(<<x>>), Some(<<u>>), None) : x \in Xs, u \in Us}
       \cup {Call(op, None, None, Some(v)) : op \in {"Reset", "SetSystime"}, v \in TimeVals}
       \cup (CASE cl = "LTI" -> {Call("SetRefpoint", None, None, None)}
-              [] cl = "LTV" -> {Call("SetRefpoint", None, None, Some(v)) : v \in TimeVals}
+              [] cl = "LTV" -> {Call("SetRefpoint", None, None, Some(v)) : v \in TimeVals} \cup {Call("SetRefpoint", None, None, None)}
               [] cl = "NLS" ->
                    IF Rich THEN {Call("SetRefpoint", x, u, v) : x \in OptB(Xs), u \in OptB(Us), v \in Opt(TimeVals)}
                    ELSE {Call("SetRefpoint", None, None, None), Call("SetRefpoint", Some(<<IF S.n = 2 THEN Xa ELSE X1a>>), None, None),
@@ -288,7 +288,7 @@ FoldTime(cl, h, k) ==
   ELSE LET c == h[k]  prev == FoldTime(cl, h, k - 1) IN
        CASE c.op = "Forward" -> prev + 1
          [] c.op \in {"Reset", "SetSystime"} -> c.v[1]
-         [] c.op = "SetRefpoint" /\ cl = "LTV" -> c.v[1]
+         [] c.op = "SetRefpoint" /\ cl = "LTV" -> IF IsSome(c.v) THEN c.v[1] ELSE prev
          [] OTHER -> prev
 TimeIsFold == KeepHist => t = FoldTime(cls, hist, Len(hist))
 
